@@ -42,6 +42,8 @@ def jobs(tier, seed):
                         if n >= 5 and (scen != 'regular' or wshape != (2,)):
                             continue
                         js.append(dict(name=f'{cls}-n{n}-w{"x".join(map(str, wshape))}-{td}-{p}-{scen}', cls=cls, n=n, wshape=list(wshape), td=td, p=p, scen=scen))
+        # memory layout of the data array: the same words handed over as Fortran-ordered arrays
+        js.append(dict(name=f'{cls}-n3-w2x3-float64-float64-regular-Forder', cls=cls, n=3, wshape=[2, 3], td='float64', p='float64', scen='regular', forder=True))
     return js
 
 
@@ -82,21 +84,22 @@ def run_job(job):
                     y.c[(i,) + deg_w] = c
         k = max(1, n // 2)
         d = _cls(clsname)(precision=p)
-        d.update(x[:k], y[:k])
+        fo = (lambda a: S.ndarray_impl(rnp.asfortranarray(a.c), a.dtype)) if job.get('forder') else (lambda a: a)
+        d.update(x[:k], fo(y[:k]))
         mark, nsq0 = len(CTX.side), len(CTX.sqrts)
         before = L.snapshot(d)
         d.compute()                      # a result requested between batches must not influence later results (its own value is not examined here)
         changed = L.same_snapshot(before, L.snapshot(d))
         del CTX.side[mark:]
         nsq1 = len(CTX.sqrts)
-        d.update(x[k:], y[k:])
+        d.update(x[k:], fo(y[k:]))
         out = d.compute()
         xs = {s: [E.R(x.c[i, s]) for i in range(n)] for s in range(S_)}
         widx = list(rnp.ndindex(wshape))
         ys = {w: [E.R(E.to_real(y.c[(i,) + w], y.dtype)) for i in range(n)] for w in widx}
 
         def wit(what, w=None, s=None):
-            return lambda m: dict(kind='stat', cls=clsname, precision=p, split=k, scen=scen, what_failed=what, word=list(w) if w is not None else None, sample=s,
+            return lambda m: dict(kind='stat', cls=clsname, precision=p, split=k, scen=scen, forder=bool(job.get('forder')), what_failed=what, word=list(w) if w is not None else None, sample=s,
                                   x=L.model_values(m, x), y=L.model_values(m, y), rounding=bool(td.startswith('float') and rnp.dtype(td).itemsize < rnp.dtype(p).itemsize),
                                   key=dict(kind='stat', cls=clsname, what=what))
         pr.prove(z3.BoolVal(not changed), f'{clsname}: compute() between two batches leaves every accumulator unchanged (changed: {changed})', wit('compute-mutates-state'))
@@ -256,14 +259,15 @@ def replay(w):
         d = cls(precision=w['precision'])
         k = w['split']
         try:
-            d.update(X[:k], Y[:k])
+            fo = np.asfortranarray if w.get('forder') else (lambda a: a)
+            d.update(X[:k], fo(Y[:k]))
             snap = {a: np.array(v, copy=True) for a, v in vars(d).items() if isinstance(v, np.ndarray)}
             with np.errstate(all='ignore'):
                 d.compute()
             for a, v in snap.items():
                 if not np.array_equal(v, getattr(d, a), equal_nan=True):
                     return dict(reproduced=True, detail=f'{w["cls"]}: compute() after update({X[:k].tolist()}, {Y[:k].tolist()}) changed accumulator {a}: {v.tolist()} -> {np.array(getattr(d, a)).tolist()}')
-            d.update(X[k:], Y[k:])
+            d.update(X[k:], fo(Y[k:]))
             out = np.array(d.compute())
         except Exception as ex:
             return dict(reproduced=True, detail=f'{w["cls"]} raised {type(ex).__name__}: {ex}')
